@@ -393,3 +393,51 @@ def true_sets(fx, ps):
         if not dead:
             out.append(frozenset(conj))
     return set(out)
+
+
+def _places_in(obj):
+    """All place dicts (with projections) inside a statement / terminator JSON object."""
+    if isinstance(obj, dict):
+        if "l" in obj and isinstance(obj.get("l"), int) and "p" in obj:
+            yield obj
+        for v in obj.values():
+            for x in _places_in(v):
+                yield x
+    elif isinstance(obj, list):
+        for v in obj:
+            for x in _places_in(v):
+                yield x
+
+
+def field_uses(fx, owner_rx, field, crates=None):
+    """[(body, line, 'read'|'write')] of every place that projects `field` out of an ADT matching owner_rx."""
+    r = re.compile(owner_rx)
+    out = []
+    for b in fx.bodies.values():
+        if crates is not None and b.crate not in crates:
+            continue
+        for blk in b.blocks:
+            if blk["cleanup"]:
+                continue
+            for s in blk["stmts"]:
+                if s["k"] != "assign":
+                    continue
+                for pl in _places_in(s["rv"]):
+                    if _proj_has(pl, r, field):
+                        out.append((b, s.get("line"), "read"))
+                lhs = s["lhs"]
+                if "p" in lhs and _proj_has(lhs, r, field):
+                    last = [e for e in lhs["p"] if e[0] == "f"]
+                    out.append((b, s.get("line"), "write" if last and last[-1][2] == field else "read"))
+            t = blk["term"]
+            for pl in _places_in({k: v for k, v in t.items() if k not in ("f",)}):
+                if _proj_has(pl, r, field):
+                    out.append((b, t.get("line"), "read"))
+    return out
+
+
+def _proj_has(pl, owner_rx, field):
+    for e in pl.get("p", ()):
+        if e[0] == "f" and len(e) > 4 and e[2] == field and e[4] and owner_rx.search(e[4]):
+            return True
+    return False
